@@ -322,7 +322,12 @@ func runEpisode(cfg epCfg) (ep *epResult) {
 										to = cs + 1 // inside the second chunk
 									}
 								}
-								_ = os.Truncate(srcPathOf(it.RelPath), to)
+								// shrink only: after an earlier shrink of the same file a target above its
+								// present length would grow it again, with zeros - a file of the old size and
+								// other content, which nobody can notice and the property does not speak of
+								if fi, err := os.Stat(srcPathOf(it.RelPath)); err == nil && to < fi.Size() {
+									_ = os.Truncate(srcPathOf(it.RelPath), to)
+								}
 							}
 						}
 					case "src_unlink":
